@@ -444,3 +444,136 @@ impl Oracle for History {
         crate::snap::hash(&self.cur)
     }
 }
+
+// ---------------------------------------------------------------------------
+// Convergence of followers fed by the diff queue: C03
+
+pub struct Converge {
+    cur: Snap,
+    compares: u64,
+    batches_applied: u64,
+    probe_multi_batch_inbox: u64,
+    probe_undo_in_batch: u64,
+    last: u64,
+}
+
+impl Converge {
+    pub fn new() -> Converge {
+        Converge { cur: Snap::new(), compares: 0, batches_applied: 0, probe_multi_batch_inbox: 0, probe_undo_in_batch: 0, last: 0 }
+    }
+    fn compare(&mut self, w: &World, idx: usize) -> Verdict {
+        let p = snapshot(&w.primary);
+        self.last = crate::snap::hash(&p);
+        for (i, f) in w.followers.iter().enumerate() {
+            self.compares += 1;
+            let s = snapshot(&f.node);
+            let d = diff(&p, &s);
+            if !d.is_empty() {
+                return Verdict::Violation(Violation::from_diff(
+                    "follower-converges",
+                    idx,
+                    idx,
+                    "Deliver",
+                    d,
+                    format!("follower {i} differs from the primary after applying every flushed batch in order (expected = primary, actual = follower)"),
+                ));
+            }
+        }
+        Verdict::Ok
+    }
+}
+
+impl Oracle for Converge {
+    fn init(&mut self, w: &World) {
+        self.cur = snapshot(&w.primary);
+    }
+    fn after(&mut self, w: &mut World, ev: &Ev, res: &StepRes, idx: usize) -> Verdict {
+        let kind = ev.kind();
+        if let Some(p) = &res.panic {
+            if matches!(ev, Ev::Deliver { .. }) {
+                return Verdict::Violation(Violation::simple("panic", idx, kind, "panic", p.clone()));
+            }
+            return Verdict::Abandon(Abandon(format!("panic in {kind}: {p}")));
+        }
+        match ev {
+            Ev::Deliver { follower } => {
+                self.batches_applied += 1;
+                if w.followers.get(*follower).map(|f| !f.inbox.is_empty()).unwrap_or(false) {
+                    self.probe_multi_batch_inbox += 1;
+                }
+                if let Err(e) = &res.result {
+                    return Verdict::Violation(Violation::simple(
+                        "apply-external-diffs-error",
+                        idx,
+                        kind,
+                        "result",
+                        format!("apply_external_diffs returned Err({e:?})"),
+                    ));
+                }
+            }
+            Ev::Undo | Ev::Redo => {
+                if res.result.is_err() {
+                    // the primary itself is in an undefined state (C01/C02's business)
+                    return Verdict::Abandon(Abandon(format!("{kind} failed on the primary: {:?}", res.result)));
+                }
+                self.probe_undo_in_batch += 1;
+            }
+            _ => {
+                if ev.is_user_op() && res.result.is_err() {
+                    // a rejected call that changed the primary without queueing anything is C04's business
+                    let now = snapshot(&w.primary);
+                    if now != self.cur {
+                        return Verdict::Abandon(Abandon(format!("rejected {kind} changed the primary (C04's business)")));
+                    }
+                }
+            }
+        }
+        if !ev.is_world() {
+            self.cur = snapshot(&w.primary);
+        }
+        if w.quiescent() && !w.followers.is_empty() {
+            return self.compare(w, idx);
+        }
+        Verdict::Ok
+    }
+    fn finish(&mut self, w: &mut World, idx: usize) -> Verdict {
+        // once faults stop: flush what is left and drain every inbox
+        let _ = w.step(&Ev::Flush);
+        for i in 0..w.followers.len() {
+            while !w.followers[i].inbox.is_empty() {
+                let r = w.step(&Ev::Deliver { follower: i });
+                self.batches_applied += 1;
+                if let Some(p) = r.panic {
+                    return Verdict::Violation(Violation::simple("panic", idx, "Deliver", "panic", p));
+                }
+                if let Err(e) = r.result {
+                    return Verdict::Violation(Violation::simple(
+                        "apply-external-diffs-error",
+                        idx,
+                        "Deliver",
+                        "result",
+                        format!("apply_external_diffs returned Err({e:?})"),
+                    ));
+                }
+            }
+        }
+        if w.followers.is_empty() {
+            return Verdict::Ok;
+        }
+        self.compare(w, idx)
+    }
+    fn exercised(&self) -> u64 {
+        self.compares
+    }
+    fn counters(&self) -> Vec<(String, u64)> {
+        vec![
+            ("convergence_compared".into(), self.compares),
+            ("batches_applied".into(), self.batches_applied),
+            ("probe_delivery_with_more_batches_waiting".into(), self.probe_multi_batch_inbox),
+            ("probe_undo_or_redo_replicated".into(), self.probe_undo_in_batch),
+        ]
+    }
+    fn last_hash(&self) -> u64 {
+        self.last
+    }
+}
